@@ -99,7 +99,8 @@ func (cr ConsoleReporter) Submit(summary Summary) (err error) {
 					digits := countDigits(report.Problem.Lines.Last) + 1
 					lines := strings.Split(content, "\n")
 					nrFmt := fmt.Sprintf("%%%dd", digits)
-					for i := report.Problem.Lines.First; i <= report.Problem.Lines.Last; i++ {
+					// YAML line numbers can point past the last "\n" separated line (bare "\r" line breaks).
+					for i := report.Problem.Lines.First; i <= report.Problem.Lines.Last && i <= len(lines); i++ {
 						buf.WriteString(output.MaybeColor(output.White, cr.noColor, fmt.Sprintf(nrFmt+" | %s\n", i, lines[i-1])))
 					}
 					buf.WriteString(strings.Repeat(" ", digits+3))
